@@ -160,7 +160,10 @@ func c06Verify(sig *bls.Sign, pub *bls.PublicKey, msg []byte) bool { return sig.
 // Environment stand-ins.
 
 // c06Domains stands in for the beacon-node client's domain provider (go-eth2-client http/domain.go).
-type c06Domains struct{ asked []string }
+type c06Domains struct {
+	asked []string
+	fail  bool // the beacon node cannot be reached: every domain request fails
+}
 
 type c06Fork struct {
 	epoch   phase0.Epoch
@@ -186,6 +189,9 @@ func c06ProviderDomain(t phase0.DomainType, v phase0.Version) (phase0.Domain, er
 
 func (d *c06Domains) Domain(_ context.Context, t phase0.DomainType, epoch phase0.Epoch) (phase0.Domain, error) {
 	d.asked = append(d.asked, fmt.Sprintf("Domain(%s, epoch %d)", c06DomainName(t), epoch))
+	if d.fail {
+		return phase0.Domain{}, errors.New("beacon node unavailable")
+	}
 	cur := c06Schedule[0]
 	for _, f := range c06Schedule {
 		if f.epoch > epoch {
@@ -198,6 +204,9 @@ func (d *c06Domains) Domain(_ context.Context, t phase0.DomainType, epoch phase0
 
 func (d *c06Domains) GenesisDomain(_ context.Context, t phase0.DomainType) (phase0.Domain, error) {
 	d.asked = append(d.asked, fmt.Sprintf("GenesisDomain(%s)", c06DomainName(t)))
+	if d.fail {
+		return phase0.Domain{}, errors.New("beacon node unavailable")
+	}
 	return c06ProviderDomain(t, c06Schedule[0].version)
 }
 
@@ -997,15 +1006,30 @@ func c06Units(tier string) []hx.Unit {
 					must(err)
 					// history: the same signer instance may already have signed this kind of duty on the other
 					// (or the same) side of the fork boundary; what it signs now must not depend on that
+					// ... nor on an earlier request of this kind that failed because the beacon node could not be asked
+					// for the domain
+					hist := []string{"none", "domain-failed"}
 					if ep.slotted {
-						if w := mc.Choose(3); w > 0 {
-							warm := &c06Req{ep: ep.name}
-							c06Fixed = true
-							ep.run(context.Background(), svc, []phase0.Slot{79, 80}[w-1], rq.accts, warm)
-							c06Fixed = false
-							rq.history = fmt.Sprintf(" (after a %s request at slot %d on the same signer)", ep.name, []phase0.Slot{79, 80}[w-1])
-							dp.asked = nil
-						}
+						hist = []string{"none", "slot79", "slot80", "domain-failed"}
+					}
+					switch h := hist[mc.Choose(len(hist))]; h {
+					case "slot79", "slot80":
+						ws := map[string]phase0.Slot{"slot79": 79, "slot80": 80}[h]
+						warm := &c06Req{ep: ep.name}
+						c06Fixed = true
+						ep.run(context.Background(), svc, ws, rq.accts, warm)
+						c06Fixed = false
+						rq.history = fmt.Sprintf(" (after a %s request at slot %d on the same signer)", ep.name, ws)
+						dp.asked = nil
+					case "domain-failed":
+						warm := &c06Req{ep: ep.name}
+						dp.fail = true
+						c06Fixed = true
+						ep.run(context.Background(), svc, slot, rq.accts, warm)
+						c06Fixed = false
+						dp.fail = false
+						rq.history = fmt.Sprintf(" (after a %s request on the same signer that failed because the domain could not be obtained)", ep.name)
+						dp.asked = nil
 					}
 					ep.run(context.Background(), svc, slot, rq.accts, rq)
 					rq.desc += rq.history
@@ -1065,9 +1089,10 @@ func init() {
 			"x accounts: single-account entry points with a local, an ordinary remote and a distributed remote account; batch entry points with every sequence of length <= 3 (thorough 4) over {ordinary, distributed} remote accounts " +
 			"and homogeneous batches of local accounts of the same lengths, distinct accounts per position and, for sync selection proofs and contributions, also one account per kind repeated; " +
 			"accounts hold real BLS keys (distributed: 2-of-3 threshold signing with recovery of the composite signature); each returned signature is verified under the account's validator key against sha256(root_i || domain) with root and domain recomputed from the specifications; " +
+			"x history on the same signer instance: none, an earlier request of the same kind on either side of the fork (slot 79 / 80), or an earlier request that failed because the beacon node could not supply the domain; " +
 			"non-trivial = batch with accounts of both remote kinds, or a slot at the start of an epoch or after the fork; distinct = entry point x account class x fork side",
 		Assumptions: []string{
-			"accounts and the domain provider are fault-free, so a returned error is reported as a finding (no signature where the statement requires one)",
+			"accounts and the domain provider are fault-free during the judged request, so a returned error is reported as a finding (no signature where the statement requires one); the history request may meet an unavailable beacon node",
 			"a batch never mixes local-wallet and remote-signer accounts (one account manager per vouch instance)",
 			"all contributions of one SignContributionAndProofs request are for the same slot and an attestation's target epoch is the epoch of its slot (as the duty services and the spec's validity conditions guarantee)",
 			"the validator key of a distributed account is its composite public key (util.ValidatorPubkey); the account returns the recovered composite signature, as the dirk client library does",
